@@ -205,6 +205,30 @@ def run(ctx):
                 e["rv"] = [common.fx(v) for v in pr[1]]
             ev.append(e)
     trs.append({"tid": len(trs) + 1, "seq": list(s), "after": [{"made": "80 distinct windows first"}], "ev": ev})
+    # the profiles are functions of (sequence, window, groups) alone: the same questions in two pristine processes, in one of them
+    # after calls that fail (window 0, negative, fractional, too long) as the very first composition calls of the process
+    from .. import orderswap
+    sa, sb = common.random_sequences(ctx.rng, 2, 40, 12)
+    items = [{"obj": 0, "seq": sa, "q": "get_linear_sequence_composition", "a": [bad]} for bad in ctx.rng.sample([0, -1, 2.5, -3, 1.5, len(sa) + 1, "3"], 4)]
+    for ob, sq in ((0, sa), (1, sb)):
+        for w in (1, 3, 5, len(sq)):
+            items.append({"obj": ob, "seq": sq, "q": "get_linear_sequence_composition", "a": [w]})
+            items.append({"obj": ob, "seq": sq, "q": "get_linear_sequence_composition", "a": [w, [["K", "R"], ["S", "T"]]]})
+            for name in STAT_CALL.values():
+                items.append({"obj": ob, "seq": sq, "q": name, "a": [w]})
+    fw, rv = orderswap.run_both(ctx, items, tag="c10swap")
+    ctx.evaluations += 2 * len(items)
+    for it, a, b in zip(items, fw, rv):
+        if not objmodel.same_reply(a["d"], b["d"]):
+            ctx.violation("profile-depends-on-earlier-calls", {"seq": it["seq"], "call": it["q"], "args": it["a"],
+                                                               "history": "after failing composition calls (windows %r) at the start of the process" % [x["a"][0] for x in items[:4]]},
+                          expected=b["d"][:300], actual=a["d"][:300])
+    # and the valid default-group replies of the first process are judged like every other (7 rows = the documented groups)
+    for it, a in zip(items, fw):
+        if it["q"] == "get_linear_sequence_composition" and len(it["a"]) == 1 and isinstance(it["a"][0], int) and 1 <= it["a"][0] <= len(it["seq"]):
+            here = objmodel.dcall(lc.SP(it["seq"]).get_linear_sequence_composition, it["a"][0])
+            if not objmodel.same_reply(here, a["d"]):
+                ctx.violation("profile-depends-on-earlier-calls", {"seq": it["seq"], "args": it["a"]}, expected=here[:300], actual=a["d"][:300])
     verdicts, _ = traces.validate(ctx, "Trace_Queries", trs, {"sqrt": []})
     for tr in trs:
         v = verdicts[tr["tid"]]
